@@ -322,6 +322,19 @@ def _value_case(p, f, value, at_node, seen, name):
     v = p.fold(f.module, value, None, f)
     if isinstance(v, str):
         return ('lower', 'literal') if v == v.lower() else ('raw', '%s = %r is not lower-case' % (name, v))
+    if isinstance(value, ast.Call):
+        g = key_helper(p, f, value)
+        if g is not None and ('helper', g.qual) not in seen:
+            # a module-level helper handed the name: its result is what its returns are
+            worst = ('lower', '%s = %s: every return of %s is lower-case' % (name, short(value, 40), g.name))
+            inner = {x for x in seen if isinstance(x, tuple) and x[0] == 'helper'} | {('helper', g.qual)}   # def indices are per function
+            for (rn, rv) in helper_returns(p, g):
+                r = key_case(p, g, rv, rn, inner)
+                if r[0] == 'raw':
+                    return ('raw', '%s = %s: %s' % (name, short(value, 40), r[1]))
+                if r[0] == 'unknown':
+                    worst = r
+            return worst
     if isinstance(value, ast.Name):
         if at_node is None and value.id in local_names(f):
             # flow-insensitive (closure variables): every binding must be lower
@@ -336,6 +349,41 @@ def _value_case(p, f, value, at_node, seen, name):
             return ('lower', '%s = %s' % (name, value.id)) if cases else ('unknown', 'no binding of %s' % value.id)
         return key_case(p, f, value, at_node, seen)
     return ('unknown', '%s = %s' % (name, short(value, 60)))
+
+
+def key_helper(p: Project, f: Func, call) -> Optional[Func]:
+    """The module-level, synchronous, undecorated function of the analysed package that `call` invokes with plain
+    positional/keyword arguments (the shape a "normalise this header name" helper has), or None."""
+    call = strip_await(call)
+    if not isinstance(call, ast.Call) or any(isinstance(a, ast.Starred) for a in call.args) or any(k.arg is None for k in call.keywords):
+        return None
+    g = p.callee(f, call)
+    if not isinstance(g, Func) or g.cls is not None or g.parent is not None or g.is_async or g.decorators:
+        return None
+    if g.node.args.vararg or g.node.args.kwarg:
+        return None
+    if any(isinstance(n, (ast.Yield, ast.YieldFrom)) for n in walk_no_nested(g.node)):
+        return None
+    return g
+
+
+def helper_returns(p: Project, g: Func) -> List[Tuple[int, ast.AST]]:
+    """[(cfg node, returned expression)] of a helper; falling off the end / a bare return (the result would be None)
+    is not a shape of a value-returning helper: UnknownIdiom."""
+    cfg = cfg_of(g, p)
+    out = []
+    for n in cfg.live_nodes():
+        if n.kind == 'stmt' and isinstance(n.ast, ast.Return):
+            if n.ast.value is None:
+                raise UnknownIdiom('%s: bare return in a helper whose result is used as a header name' % g.qual)
+            out.append((n.id, n.ast.value))
+    live = {n.id for n in cfg.live_nodes()}
+    for (x, l) in cfg.pred[cfg.exit]:
+        if x in live and l != 'ret':
+            raise UnknownIdiom('%s: a path falls off the end of a helper whose result is used as a header name' % g.qual)
+    if not out:
+        raise UnknownIdiom('%s: helper has no return' % g.qual)
+    return out
 
 
 def _def_case(p, f, d: Def, seen):
